@@ -427,6 +427,25 @@ def _verdict(r):
     return SAT if r == z3.sat else (UNSAT if r == z3.unsat else UNKNOWN)
 
 
+def symbolic_outputs(fn, args, use_stubs=True, while_bound=16, prefix="x"):
+    """Trace fn(*args) (real code), evaluate the jaxpr symbolically; returns (sym, input object arrays, output pytree of object arrays)."""
+    leaves, in_tree = jax.tree_util.tree_flatten(args)
+    structs = [_leaf_struct(x) for x in leaves]
+
+    def comp(*flat):
+        return fn(*jax.tree_util.tree_unflatten(in_tree, flat))
+
+    with (stubs.installed() if use_stubs else _null()):
+        cj, out_shape = jax.make_jaxpr(comp, return_shape=True)(*structs)
+    jaxpr, _ = pe.dce_jaxpr(cj.jaxpr, [True] * len(cj.jaxpr.outvars), instantiate=True)
+    sym = S.Sym(while_bound=while_bound)
+    sym.ext_handlers = stubs.EXT_CONTRACTS
+    ins = [sym.sym_array(f"{prefix}{li}", st.shape, st.dtype, leaf=li) for li, st in enumerate(structs)]
+    outs = sym.eval_closed(jax.core.ClosedJaxpr(jaxpr, cj.consts), *ins)
+    _, otree = jax.tree_util.tree_flatten(out_shape)
+    return sym, jax.tree_util.tree_unflatten(in_tree, ins), jax.tree_util.tree_unflatten(otree, outs)
+
+
 class _null:
     def __enter__(self):
         return self
